@@ -40,6 +40,21 @@ def parseFmt : String → Option Fmt
 
 def noFloat : Nat → Bytes := fun _ => [63]
 
+def errClass : Err → String
+  | .eof => "eof" | .unexpectedEof => "ueof" | .injected => "inj" | _ => "rej"
+
+def showDec (o : CborDec.RunOut) : String :=
+  showToks o.toks ++ "/" ++ toString o.rd.data.length ++ "/" ++
+    (match o.res with | .ok _ => "ok" | .error e => errClass e)
+
+/-- canonical form a CBOR round trip returns: non-negative signed integers come back unsigned -/
+def canonTok (t : Tok) : Tok :=
+  match t.body with
+  | .int i => if i ≥ 0 then { t with body := .uint i.toNat } else t
+  | _ => t
+
+def tagsOk (ts : List Tok) : Bool := ts.all fun t => match t.tag with | some n => n ≥ 0 | none => true
+
 def handle (parts : List String) : String :=
   match parts with
   | ["acc", f, toks] =>
@@ -56,7 +71,25 @@ def handle (parts : List String) : String :=
     match parseToks toks with
     | some ts =>
       let (fl, ws) := runEnc CborEnc.step CborEnc.init ts
-      "M=" ++ fl ++ " " ++ showWrites ws
+      let bytes := ws.flatten
+      let rt := if fl.endsWith "D" then showDec (CborDec.decode false (Rd.ofBytes bytes)) else "-"
+      let spec := match TV.ofToks ts with
+        | some v =>
+          if v.lengthsOk && tagsOk ts && recFlags .cbor [] ts == (List.replicate (ts.length - 1) Flag.cont ++ [Flag.done]) then
+            " S=" ++ hexOrDash (Spec.Cbor.enc v) ++ " SR=" ++ showToks (ts.map canonTok) ++ "/0/ok"
+          else ""
+        | none => ""
+      "M=" ++ fl ++ " W=" ++ showWrites ws ++ " R=" ++ rt ++ spec
+    | none => "bad-op"
+  | ["cbordec", co, hx] =>
+    match parseHex hx with
+    | some bs =>
+      let coerce := co == "1"
+      let o := CborDec.decode coerce (Rd.ofBytes bs)
+      let spec := match Spec.Cbor.parse coerce bs with
+        | some (v, rest) => showToks v.flatten ++ "/" ++ toString rest.length ++ "/ok"
+        | none => "E"
+      "M=" ++ showDec o ++ " n=" ++ toString o.steps ++ " a=" ++ toString o.alloc ++ " S=" ++ spec
     | none => "bad-op"
   | _ => "bad-op"
 
